@@ -7,10 +7,11 @@ spec/redis/Compress.tla: value classes by how the value compression behaves, one
 request, number of compression layers of the stored bytes and whether they still are the bytes the filter produced
 (the compression works in a scratch buffer shared by the whole process), config history (absent / switched off /
 enabled), filter passes per request (= 1 + redirections), one decompress hook per pass reaching down to a nesting depth
-of the reply (bulk / flat array / nested array = HSCAN).  TLC checks StoredForm, ReadBack, OnlyWhenEnabled exhaustively
+of the reply (bulk / flat array / nested array = HSCAN), age of the backend connection a request is first sent over
+(config in force when it was made; connections are made again).  TLC checks StoredForm, ReadBack, OnlyWhenEnabled exhaustively
 for the code's constants and must find a counterexample for each broken variant: FixOnce = FALSE (compression per send),
 HookDepth = 1 (hooks do not descend into nested arrays), OwnBytes = FALSE (request keeps pointing into the scratch
-buffer); the windows the mandatory strata consist of must be reachable.
+buffer), ConnConfig = "at-connect" (a connection's filter works with the config of connection time: ReadBack, OffMeansOff); the windows the mandatory strata consist of must be reachable.
 spec/redis/CompressPipe.tla: the writer of a backend connection with its queue; a disabled command never reaches the
 backend, whatever is queued behind it (AfterStop = "queued-falls-through" must violate BannedRejectedLocally).
 
@@ -21,6 +22,9 @@ snappy; disabled commands get the error and never show up in a node's command lo
    shape (all class combinations of 1-2 value positions x 0-1 redirections x with/without other traffic while the
    write is on its way), optionally compression switched off, one read of every shape (0-1 redirections x reply depth
    0/1/2) - nine write commands + HMSET/HSET/MSET with several values, GET/GETSET/MGET/HGET/HMGET/HGETALL/HVALS/HSCAN;
+ * mandatory strata of connection age (Strata_CompressConn.cfg, 864): every node connected under the first config, config
+   changed at run time, no / one connection made again (the node's connections are reset), one write and one read each over
+   a chosen connection (the slot is handed to that node and the processor's table settled first);
  * TLC-simulated histories (seeded; config switches, writes with 1-3 values and 0-2 redirections, reads);
  * every CompressPipe behaviour (pipelines up to length 3, thorough 4, every interleaving of hand-over and take) forced
    on the real writer through the hook points client.loopWrite.select / client.Send.enqueued, one or two sessions;
@@ -63,6 +67,12 @@ def run(ctx):
         "pinned": lambda: ctx.mc("redis", "Compress", "MC_Compress_pinned.cfg", workers=1, timeout=300, expect_violated=["StoredForm", "ReadBack"], count=False),
         "flathook": lambda: ctx.mc("redis", "Compress", "MC_Compress_flathook.cfg", workers=1, timeout=300, expect_violated=["ReadBack"], count=False),
         "scratch": lambda: ctx.mc("redis", "Compress", "MC_Compress_scratch.cfg", workers=1, timeout=300, expect_violated=["StoredForm"], count=False),
+        "conn": lambda: ctx.mc("redis", "Compress", "MC_Compress_conn.cfg", workers=2, timeout=300),
+        "conn-frozen-read": lambda: ctx.mc("redis", "Compress", "MC_Compress_connfrozen_read.cfg", workers=1, timeout=300, expect_violated=["ReadBack"], count=False),
+        "conn-frozen-off": lambda: ctx.mc("redis", "Compress", "MC_Compress_connfrozen_off.cfg", workers=1, timeout=300, expect_violated=["OffMeansOff"], count=False),
+        "w-conn": lambda: ctx.mc("redis", "Compress", "MC_Compress_window_conn.cfg", workers=1, timeout=300,
+                                 expect_violated=["NoReadOverOlderConnection"], count=False),
+        "strata-conn": lambda: _emit(ctx, "CompressGen", "Strata_CompressConn.cfg", "BEH"),
         "w-nested": lambda: ctx.mc("redis", "Compress", "MC_Compress_window_nested.cfg", workers=1, timeout=300,
                                    expect_violated=["NoNestedReadOfCompressed"], count=False),
         "w-multi": lambda: ctx.mc("redis", "Compress", "MC_Compress_window_multi.cfg", workers=1, timeout=300,
@@ -78,10 +88,11 @@ def run(ctx):
     }
     # the drivers need only the build and the emitted behaviours; the exhaustive runs are joined at the end
     ex = concurrent.futures.ThreadPoolExecutor(max_workers=8)
-    order = ["build", "strata", "sim", "pipes"] + [k for k in jobs if k not in ("build", "strata", "sim", "pipes")]
+    first = ("build", "strata", "strata-conn", "sim", "pipes")
+    order = list(first) + [k for k in jobs if k not in first]
     futs = {name: ex.submit(jobs[name]) for name in order}
     try:
-        _drivers(ctx, {k: futs[k].result() for k in ("build", "strata", "sim", "pipes")}, num)
+        _drivers(ctx, {k: futs[k].result() for k in first}, num)
     finally:
         concurrent.futures.wait(list(futs.values()))
         ex.shutdown()
@@ -100,7 +111,10 @@ def _drivers(ctx, done, num):
     sims = [p for (tag, p) in g.prints if tag == "BEH"]
     if len(sims) < num // 2:
         raise kit.Inconclusive("only %d histories emitted: %s" % (len(sims), g.error[:300]))
-    behs = strata + sims
+    cstrata = done["strata-conn"]
+    if len(cstrata) != 864:   # first config x changed config x (no connection | a | b made again) x write (class x connection) x read (depth x connection)
+        raise kit.Inconclusive("expected 864 strata of connection age, TLC emitted %d" % len(cstrata))
+    behs = strata + cstrata + sims
     bfile = os.path.join(ctx.work, "histories.ndjson")
     kit.write_ndjson(bfile, behs)
     rfile = os.path.join(ctx.work, "replay.ndjson")
@@ -124,7 +138,7 @@ def _drivers(ctx, done, num):
     results = {r["id"]: r for r in kit.read_ndjson(rfile)} if os.path.exists(rfile) else {}
     good = 0
     infra = []
-    tot = {"nested": 0, "multi": 0, "traffic": 0, "packed": 0}
+    tot = {"nested": 0, "multi": 0, "traffic": 0, "packed": 0, "oldconn": 0, "offconn": 0}
     for i, beh in enumerate(behs):
         res = results.get(i + 1)
         if res is None:
@@ -140,7 +154,7 @@ def _drivers(ctx, done, num):
         good += 1
         for k in tot:
             tot[k] += res.get(k, 0)
-        ctx.case(key=[(s["a"], s["c"], s["k"], tuple(s["vals"]), s["r"], s["busy"], s["d"]) for s in beh],
+        ctx.case(key=[(s["a"], s["c"], s["k"], tuple(s["vals"]), s["r"], s["busy"], s["d"], s["n"]) for s in beh],
                  nontrivial=res.get("packed", 0) > 0, n=res["writes"] + res["reads"])
         if not res.get("bad"):
             ctx.cov["traces_validated_against_impl"] += 1
@@ -148,10 +162,12 @@ def _drivers(ctx, done, num):
     if len(infra) > len(behs) * 0.05 and not ctx.violations:
         raise kit.Inconclusive("the processor could not deliver %d requests (first: %s)" % (len(infra), infra[0]))
     _stands_or_inconclusive(ctx, rc, se, "c13-replay", good >= len(behs) * 0.8, "%d of %d histories replayed" % (good, len(behs)))
-    if not ctx.violations and (tot["nested"] < 50 or tot["multi"] < 20 or tot["traffic"] < 100):
+    if not ctx.violations and (tot["nested"] < 50 or tot["multi"] < 20 or tot["traffic"] < 100 or tot["oldconn"] < 40 or tot["offconn"] < 40):
         raise kit.Inconclusive("mandatory strata not exercised: %s" % tot)
     ctx.notes.append("histories: %d strata + %d simulated; values stored compressed %d, of which read back in nested replies %d; requests with >= 2 "
-                     "compressed values %d; background values during writes %d" % (len(strata), len(sims), tot["packed"], tot["nested"], tot["multi"], tot["traffic"]))
+                     "compressed values %d; background values during writes %d; compressed values read over a connection older than the config %d; compressible values written over a connection "
+                     "made while compression was enabled, after it was switched off %d"
+                     % (len(strata) + len(cstrata), len(sims), tot["packed"], tot["nested"], tot["multi"], tot["traffic"], tot["oldconn"], tot["offconn"]))
     if results.get(1):
         ctx.sample({"history": behs[0], "result": results[1]})
 
